@@ -342,3 +342,48 @@ Lemma hex_qface_edges_ok : qface_edges_okb 8 gen_hex_rfacets gen_hex_redges = tr
 Proof. vm_compute. reflexivity. Qed.
 Lemma hex_trace4_ok : trace4_ok gen_hex_rfacets gen_hex_redges gen_hex_templates = true.
 Proof. vm_compute. reflexivity. Qed.
+
+(* ------------------------------------------------------------------ hexahedra: the cyclic-order conformity is preserved *)
+Require Import Proofs.C11_EquivProofs Proofs.C12_HexCycleProofs.
+Lemma hex_same_parent : hex_same_parent_ok gen_hex_rfacets gen_hex_templates = true.
+Proof. vm_compute. reflexivity. Qed.
+Lemma hex_boundary : hex_boundary_ok gen_hex_rfacets gen_hex_redges gen_hex_templates = true.
+Proof. vm_compute. reflexivity. Qed.
+Lemma hex_slots_f : slots_ok 8 gen_hex_rfacets = true. Proof. vm_compute. reflexivity. Qed.
+Lemma hex_slots_e : slots_ok 8 gen_hex_redges = true. Proof. vm_compute. reflexivity. Qed.
+Lemma hex_tpls_okb : tpls_okb 8 (length gen_hex_redges) (length gen_hex_rfacets) gen_hex_templates = true.
+Proof. vm_compute. reflexivity. Qed.
+
+Lemma hex_step_conf p t : cells_ok 8 (length p) t -> conf t gen_hex_rfacets ->
+  cells_ok 8 (length (fst (uniform_block hex_spec 3 p (hex_tabs t)))) (snd (uniform_block hex_spec 3 p (hex_tabs t))) /\
+  conf (snd (uniform_block hex_spec 3 p (hex_tabs t))) gen_hex_rfacets.
+Proof.
+  intros H Hc. split; [now apply hex_step_ok|].
+  destruct t as [|c0 t']; [unfold uniform_block; cbn [snd]; simpl; rewrite refine_t_nil; intros s e s' e' _ He; simpl in He; lia|].
+  set (t := c0 :: t') in *.
+  pose proof (c11_tab_max t gen_hex_rfacets ltac:(simpl; lia) ltac:(simpl; lia)) as HmaxF.
+  pose proof (c11_tab_max t gen_hex_redges ltac:(simpl; lia) ltac:(simpl; lia)) as HmaxE.
+  set (nE := length (entities true t gen_hex_redges)) in *. set (nF := length (entities true t gen_hex_rfacets)) in *.
+  assert (Hchild : forall c, In c (snd (uniform_block hex_spec 3 p (hex_tabs t))) ->
+            exists k tpl, k < length t /\ In tpl gen_hex_templates /\
+                          c = child (canon_offs (length p) nE nF) (cell_ctx (hex_tabs t) k) tpl).
+  { intros c Hin. unfold uniform_block in Hin. cbn [snd] in Hin. apply in_refine_t in Hin. destruct Hin as [tpl [x [Ht [Hx ->]]]].
+    apply in_mk_ctxs in Hx. destruct Hx as [k [Hk ->]]. exists k, tpl. split; [exact Hk|]. split; [exact Ht|].
+    apply (child_canon gen_hex_templates); try exact Ht; intros _.
+    - reflexivity.
+    - unfold offs_of, hex_spec, mk_spec. cbn [sp_off offF]. unfold gen_hex_offF.
+      change (tb_t2e (hex_tabs t)) with (map (fun k => map (fun a => nth k (nth a (mapping t gen_hex_redges) []) 0) (seq 0 (length gen_hex_redges))) (seq 0 (length t))).
+      unfold nE. lia.
+    - unfold offs_of, hex_spec, mk_spec. cbn [sp_off offC]. unfold gen_hex_offC.
+      change (tb_t2e (hex_tabs t)) with (map (fun k => map (fun a => nth k (nth a (mapping t gen_hex_redges) []) 0) (seq 0 (length gen_hex_redges))) (seq 0 (length t))).
+      change (tb_t2f (hex_tabs t)) with (map (fun k => map (fun a => nth k (nth a (mapping t gen_hex_rfacets) []) 0) (seq 0 (length gen_hex_rfacets))) (seq 0 (length t))).
+      unfold nE, nF. lia. }
+  intros s e s' e' Hs He Hs' He' Hkey.
+  destruct (Hchild _ (nth_In _ [] He)) as [k1 [tpl1 [Hk1 [Ht1 E1]]]].
+  destruct (Hchild _ (nth_In _ [] He')) as [k2 [tpl2 [Hk2 [Ht2 E2]]]].
+  rewrite E1, E2 in *.
+  exact (children_conf t gen_hex_rfacets gen_hex_redges 8 (length p) gen_hex_templates hex_slots_f hex_slots_e hex_qface_edges_ok H
+                       hex_tpls_okb hex_same_parent hex_boundary Hc k1 tpl1 s k2 tpl2 s' Hk1 Ht1 Hs Hk2 Ht2 Hs' Hkey).
+Qed.
+Lemma hex_rf_len4 s : s < length gen_hex_rfacets -> length (nth s gen_hex_rfacets []) = 4.
+Proof. intros H. do 6 (destruct s as [|s]; [reflexivity|]). simpl in H. lia. Qed.
